@@ -127,6 +127,79 @@ REFACTORS = [
     {"name": "discinfo-trailing-newline+variant-add-local-names", "edits": [
         (DI, """        f.write("\\n".join(parser))""", """        f.write("\\n".join(parser) + "\\n")"""),
     ]},
+    {"name": "images-load-replaces-content+rpms-checked-arch-cache+discinfo-all-constant-copied", "edits": [
+        (IM, """        self.compose.deserialize(data["payload"])
+        for variant in data["payload"]["images"]:""", """        self.compose.deserialize(data["payload"])
+        self.images = {}
+        for variant in data["payload"]["images"]:"""),
+        (RP, """        if arch not in productmd.common.RPM_ARCHES:
+            raise ValueError("Arch not found in RPM_ARCHES: %s" % arch)
+
+        if arch in ["src", "nosrc"]:
+            raise ValueError("Source arch is not allowed. Map source files under binary arches.")
+
+        if category""", """        if arch not in _BINARY_ARCHES_SEEN:
+            if arch not in productmd.common.RPM_ARCHES:
+                raise ValueError("Arch not found in RPM_ARCHES: %s" % arch)
+
+            if arch in ["src", "nosrc"]:
+                raise ValueError("Source arch is not allowed. Map source files under binary arches.")
+            _BINARY_ARCHES_SEEN.add(arch)
+
+        if category"""),
+        (RP, """class Rpms(productmd.common.MetadataBase):""", """_BINARY_ARCHES_SEEN = set()
+
+
+class Rpms(productmd.common.MetadataBase):"""),
+        (DI, """        if not disc_numbers or disc_numbers == "ALL":
+            self.disc_numbers = ["ALL"]""", """        if not disc_numbers or disc_numbers == "ALL":
+            self.disc_numbers = list(_ALL)"""),
+        (DI, """class DiscInfo(productmd.common.MetadataBase):""", """_ALL = ("ALL", )
+
+
+class DiscInfo(productmd.common.MetadataBase):"""),
+    ]},
+    {"name": "treeinfo-dump-renders-to-a-string-first+json-dump-via-dumps-string", "edits": [
+        (TI, """        parser = self._get_parser()
+        self.serialize(parser, main_variant=main_variant)
+        with productmd.common.open_file_obj(f, "w") as f:
+            self.build_file(parser, f)
+""", """        parser = self._get_parser()
+        self.serialize(parser, main_variant=main_variant)
+        buf = six.StringIO()
+        self.build_file(parser, buf)
+        text = buf.getvalue()
+        with productmd.common.open_file_obj(f, "w") as f:
+            f.write(text)
+"""),
+        (CM, """        with open_file_obj(f, "w") as f:
+            self.build_file(parser, f)
+""", """        text = json.dumps(parser, indent=4, sort_keys=True, separators=(",", ": ")) if isinstance(parser, dict) else None
+        with open_file_obj(f, "w") as f:
+            if text is None:
+                self.build_file(parser, f)
+            else:
+                f.write(text)
+"""),
+    ]},
+    {"name": "variant-add-validates-first-on-the-would-be-parent+top-level-parent-cleared-in-wrapper", "edits": [
+        (CI, """        old_parent = variant.parent
+        try:
+            self._add(variant, variant_id=variant_id)
+        except Exception:
+            # a refused variant must not stay re-parented
+            variant.parent = old_parent
+            raise""", """        old_parent = variant.parent
+        snapshot = dict(self.variants)
+        try:
+            self._add(variant, variant_id=variant_id)
+        except Exception:
+            # a refused variant must not stay re-parented, nor registered
+            variant.parent = old_parent
+            self.variants.clear()
+            self.variants.update(snapshot)
+            raise"""),
+    ]},
 ]
 
 
